@@ -352,7 +352,7 @@ def run_all(scns, workers):
 
 
 # ---- directed search: exchanges whose S, A, B, M1 or M2 start with a zero byte ---------------------------------
-LZ_KINDS = ["S", "A", "B", "M1", "M2"]
+LZ_KINDS = ["S", "K", "A", "B", "M1", "M2"]
 
 
 def _lz_candidate(kind, i):
@@ -724,7 +724,7 @@ def gen_scenarios(tier, rnd, lz=None):
                      m6=[sub(d_items(l_set(T_SIG, lambda ctx, v: ctx.U.sign(
                          ACC_LTSK, ctx.U.hkdf(ctx.acc.K, lit(R.L_PSA_SALT), lit(R.L_PSA_INFO)) + lit(ctx.acc.acc_id)
                          + ctx.U.edpub(ACC_LTSK)))), "sig-by-first-ltsk")]))
-    # directed stream: honest exchanges (and a few mutations) whose S / A / B / M1 / M2 have a leading zero byte
+    # directed stream: honest exchanges (and a few mutations) whose S / K / A / B / M1 / M2 have a leading zero byte
     for kind, (a_, b_) in sorted((lz or {}).items()):
         for tr in TRANSPORTS:
             S.append(Scn("leading-zero:" + kind + ":honest", tr, 0, honest=True, srp=(a_, b_), detail=kind))
@@ -1071,7 +1071,7 @@ def run(ctx):
                                     "every field drop/duplicate of M2, M4, M6 and the M6 sub-TLV")
     cov.extra["directed_leading_zero"] = dict(
         found={k: dict(a=hex(v[0]), b=hex(v[1])) for k, v in lz.items()}, candidates_evaluated=lz_tried,
-        note="exchanges whose SRP premaster secret S, public keys A, B or proofs M1, M2 start with 0x00 (1 in 256 each); "
+        note="exchanges whose SRP premaster secret S, session key K, public keys A, B or proofs M1, M2 start with 0x00 (1 in 256 each); "
              "the controller's SRP secret is pinned through the Srp.generate_private_key seam")
     cov.extra["disagreements_checked"] = n_model
     cov.extra["model_cases"] = n_model
